@@ -74,6 +74,8 @@ class PubSubRun:
         timecode = bool(ch.pick("cfg.timecode", 2))
         timing = not bool(ch.pick("cfg.timing_off", 3) == 2)
         lvl = ch.weighted("cfg.loglevel", [(4, logging.ERROR), (2, logging.INFO), (1, logging.DEBUG)])
+        if getattr(self, "force_loglevel", None) is not None:
+            lvl = self.force_loglevel
         notw = ch.choose("cfg.notw", prof["notw"])
         pool = list(TYPE_POOL_SAFE)
         if prof["edge_types"] and ch.flag("cfg.edge", 1, 2):
